@@ -37,9 +37,11 @@ func words(alpha []string, maxLen int, f func([]string)) {
 
 // tick sizes relative to the effective lifetime, chosen so that no sum of them equals it
 // (300a + 450b + 1300c = 1000 has no solution): the boundary instant itself is never observed.
+// The cloud runtime state has its own fixed lifetime (90 s): sums of the ticks must not hit that either
+// (default lifetime: 80 s / 135 s / 390 s; 70 s lifetime: 21 s / 31.5 s / 91 s).
 func ticks(ttl int64) (short1, short2, long int64) {
 	if ttl == 0 {
-		ttl = 300000
+		return 80000, 135000, 390000
 	}
 	return ttl * 3 / 10, ttl * 45 / 100, ttl * 13 / 10
 }
@@ -160,7 +162,7 @@ func genRandom(r *common.Rand, backend string, withTicks bool, emit func(string)
 	if r.Intn(6) == 0 {
 		clients = append(clients, 0)
 	}
-	ttl := common.Pick(r, []int64{1000, 1000, 60000, 0})
+	ttl := common.Pick(r, []int64{1000, 1000, 70000, 0})
 	s1, s2, lg := ticks(ttl)
 	var conns []*simConn
 	serial := map[[2]int]int{}
